@@ -18,11 +18,15 @@ SYSTEM_CHILD_ID = 255
 
 def get_const(protocol_version):
     """Return the const module for the protocol_version."""
+    # Compare major and minor version numerically. AwesomeVersion does not order
+    # eg 2.0.0 and 2.0, which would select an older version for 2.0.0.
+    version = AwesomeVersion(protocol_version)
+    major_minor = (version.section(0), version.section(1))
     path = next(
         (
             CONST_VERSIONS[const_version]
             for const_version in sorted(CONST_VERSIONS, reverse=True)
-            if AwesomeVersion(protocol_version) >= AwesomeVersion(const_version)
+            if major_minor >= tuple(int(part) for part in const_version.split("."))
         ),
         "mysensors.const_14",
     )
